@@ -386,10 +386,14 @@ class Fn:
             return ("v", l)
         if not expand or depth > 40:
             return ("v", l)
+        stop = getattr(self, "_stop_named", False)
+        if stop and self.local_name(l):
+            # named working locals stay symbolic (rules/linear.py): only compiler temporaries are opened
+            return ("v", l)
         ds = self.defs.get(l, [])
         if len(ds) != 1:
             return ("v", l)
-        key = l
+        key = (l, "named") if stop else l
         if key in self._expr_cache:
             return self._expr_cache[key]
         self._expr_cache[key] = ("v", l)  # recursion guard
